@@ -146,6 +146,14 @@ theorem bad_step_never_returned (m0 : V) (n : Nat) :
     (gradientDescent misfit grad pre bad strict eps m0 n).x = misfit m0 ∨
     bad (gradientDescent misfit grad pre bad strict eps m0 n).x = false :=
   ret_from misfit grad pre bad strict eps _ n
+
+/-- an interrupted run is the shorter run, so everything above holds for it as well; in particular
+    the returned model and misfit are the last history entry -/
+theorem interrupted_returned_is_last (m0 : V) (n completed : Nat) :
+    (gradientDescentInterrupted misfit grad pre bad strict eps m0 n completed).hist.getLast?
+      = some ((gradientDescentInterrupted misfit grad pre bad strict eps m0 n completed).m,
+              (gradientDescentInterrupted misfit grad pre bad strict eps m0 n completed).x) :=
+  returned_is_last misfit grad pre bad strict eps m0 _
 end
 
 /-! ### non-vacuity: a two-step descent on `x ↦ x²/2` over ℝ has a three-entry history -/
